@@ -52,6 +52,10 @@ def report(pid, tier, seed, t0, res):
     Prints VIOLATION lines, writes evidence; returns exit code."""
     viol = []
     idx = res.get('idx')
+    import glob
+    for old in glob.glob('%s/replays/%s-*.json' % (core.VERIF, pid)):
+        try: os.remove(old)
+        except OSError: pass
     kf = known_findings(); known = [k for k in kf.get('findings', []) if k.get('property') == pid]
     for lem, err in res['failures'][:8]:
         cx, errs = (None, [])
